@@ -137,7 +137,7 @@ impl Prop for NameClashes {
         "C13/name-clashes".into()
     }
     fn rule(&self) -> String {
-        "small programs from the rich generator with one or two name-clash perturbations: a second function of the same name in one impl block (same signature or an overload), a derived type re-declaring an inherited impl/virtual function with its own address, two fields / enum cases / parameters / virtual functions of one name in one item, and a field, impl function, virtual function, case, parameter or extern value renamed to a name already used elsewhere in the program or generated by the backend (vftable, get, as_ref, _vfunc_N, _field_N, <T>Vftable, get_<extern>, <field>_<name>, ...). The reference model is not consulted: when pyxis rejects, the case is discarded; when it accepts, every output file must parse and the crate must type-check (as in C13/type-checks). Non-trivial: pyxis accepted a perturbed program".into()
+        "small programs from the rich generator with one or two name-clash perturbations: a second function of the same name in one impl block (same signature or an overload), a derived type re-declaring an inherited impl/virtual function with its own address, two fields / enum cases / parameters / virtual functions of one name in one item, an enum over a non-integer base (bool, float, void, a user or extern type), and a field, impl function, virtual function, case, parameter or extern value renamed to a name already used elsewhere in the program or generated by the backend (vftable, get, as_ref, _vfunc_N, _field_N, <T>Vftable, get_<extern>, <field>_<name>, ...). The reference model is not consulted: when pyxis rejects, the case is discarded; when it accepts, every output file must parse and the crate must type-check (as in C13/type-checks). Non-trivial: pyxis accepted a perturbed program".into()
     }
     fn gen(&self, t: &mut Tape) -> Case {
         let w = if t.chance(1, 2) { 8 } else { 4 };
